@@ -12,7 +12,7 @@ use chain_extension::generate_chain_extension_method;
 use chain_method::generate_chain_method;
 use method_impl::generate_method_impl;
 use types::MethodAttrs;
-use utils::build_combined_where_clause;
+use utils::{build_combined_where_clause, extract_param_renames};
 
 pub(crate) fn proxy(attr: TokenStream, input: TokenStream) -> TokenStream {
     match proxy_impl(attr, input) {
@@ -42,6 +42,8 @@ fn proxy_impl(attr: TokenStream, input: TokenStream) -> Result<TokenStream, Erro
         if let TraitItem::Fn(method) = item {
             // Extract attributes once to avoid multiple mutable borrows
             let method_attrs = MethodAttrs::extract(&mut method.attrs)?;
+            // The wire names of the parameters, shared by all call forms of the method.
+            let param_renames = extract_param_renames(method);
 
             // Generate chain extension method
             let (extension_method, extension_impl) = generate_chain_extension_method(
@@ -49,6 +51,7 @@ fn proxy_impl(attr: TokenStream, input: TokenStream) -> Result<TokenStream, Erro
                 &interface_name,
                 &trait_def.generics,
                 &method_attrs,
+                &param_renames,
                 &crate_path,
             )?;
             if !extension_method.is_empty() {
@@ -64,6 +67,7 @@ fn proxy_impl(attr: TokenStream, input: TokenStream) -> Result<TokenStream, Erro
                 &interface_name,
                 &trait_def.generics,
                 &method_attrs,
+                &param_renames,
                 &crate_path,
             )?;
             methods.push(method_impl);
@@ -74,6 +78,7 @@ fn proxy_impl(attr: TokenStream, input: TokenStream) -> Result<TokenStream, Erro
                 &interface_name,
                 &trait_def.generics,
                 &method_attrs,
+                &param_renames,
                 &crate_path,
             )?;
             if !chain_trait.is_empty() {
